@@ -617,8 +617,9 @@ spifconf_shell_expand(spif_charptr_t s)
                       return (spif_charptr_t) NULL;
                   }
                   *(--tmp1) = 0;
-                  Command = spifconf_shell_expand(Command);
-                  Output = (spif_charptr_t) (builtins[k].ptr) (Command);
+                  /* The expansion is done in place; it returns NULL if it fails. */
+                  tmp = spifconf_shell_expand(Command);
+                  Output = (spif_charptr_t) (builtins[k].ptr) (tmp);
                   FREE(Command);
                   if (Output) {
                       if (*Output) {
@@ -651,8 +652,8 @@ spifconf_shell_expand(spif_charptr_t s)
                   }
                   ASSERT_RVAL(l < CONFIG_BUFF, NULL);
                   Command[l] = 0;
-                  Command = spifconf_shell_expand(Command);
-                  Output = builtin_exec(Command);
+                  tmp = spifconf_shell_expand(Command);
+                  Output = builtin_exec(tmp);
                   FREE(Command);
                   if (Output) {
                       if (*Output) {
